@@ -45,9 +45,7 @@ func CheckHeader(doc []byte, unwrap UnwrapFunc) (v HeaderVerdict, headerLen int,
 		lines[i] = doc[pos : pos+nl]
 		pos += nl + 1
 	}
-	if pos > SegmentSize {
-		return HeaderRejected, pos, fmt.Errorf("%w: header longer than a segment", ErrFormat)
-	}
+	// README.md puts no limit on the length of the header (of the key name), so none is imposed here
 	if string(lines[0]) != SchemeLine {
 		return HeaderRejected, pos, fmt.Errorf("%w: first line is %q", ErrFormat, lines[0])
 	}
